@@ -25,4 +25,17 @@ def samePicture (a b : Img) : Prop :=
   a.ihdr.width = b.ihdr.width ∧ a.ihdr.height = b.ihdr.height ∧ a.ihdr.interlaced = b.ihdr.interlaced ∧
   pixelColours a = pixelColours b
 
+theorem samePicture_refl (a : Img) : samePicture a a := ⟨rfl, rfl, rfl, rfl⟩
+theorem samePicture_symm {a b : Img} (h : samePicture a b) : samePicture b a :=
+  ⟨h.1.symm, h.2.1.symm, h.2.2.1.symm, h.2.2.2.symm⟩
+theorem samePicture_trans {a b c : Img} (h1 : samePicture a b) (h2 : samePicture b c) : samePicture a c :=
+  ⟨h1.1.trans h2.1, h1.2.1.trans h2.2.1, h1.2.2.1.trans h2.2.2.1, h1.2.2.2.trans h2.2.2.2⟩
+
+/-- C03's relation on whole images: same geometry, as many stored pixels, and at every stored
+    position the same alpha and - unless the pixel is fully transparent - the same colour -/
+def sameVisiblePicture (a b : Img) : Prop :=
+  a.ihdr.width = b.ihdr.width ∧ a.ihdr.height = b.ihdr.height ∧ a.ihdr.interlaced = b.ihdr.interlaced ∧
+  (pixelColours a).length = (pixelColours b).length ∧
+  ∀ p ∈ List.zip (pixelColours a) (pixelColours b), alphaEq p.1 p.2
+
 end OxiModel.Spec
